@@ -14,8 +14,9 @@ Verdict ==
       bad9 == {<<i, c>> \in (1..Len(T)) \X Clauses : ~C09(T[i].proj)[c]}
       badL1 == {i \in 1..Len(T) : ~L1(T[i].proj)}
       badL2b == {i \in 2..Len(T) : ~L2b(T[i - 1].proj, T[i].proj, T[i])}
+      badL2c == {i \in 2..Len(T) : ~L2c(T[i - 1].proj, T[i].proj, T[i])}
       m == L2(T)
-  IN PrintT(ToJson([k |-> k, n |-> Len(T), bad9 |-> bad9, l1 |-> badL1, l2b |-> badL2b,
+  IN PrintT(ToJson([k |-> k, n |-> Len(T), bad9 |-> bad9, l1 |-> badL1, l2b |-> badL2b, l2c |-> badL2c,
                     orphans |-> [i \in badL1 |-> Orphans(T[i].proj)],
                     l2ok |-> m[1], l2step |-> m[2], l2what |-> m[3]]))
 =============================================================================
